@@ -6,7 +6,7 @@ SCREEN_NOTE = ("Trusted: the harness's VScreen terminal model (cross-checked aga
 
 CLAIMS = {
     "C01": {
-        "text": "Exploration: seeded random single-bar histories run against the real library on a spy terminal; at every flush the full screen (scrollback included) must equal printed lines + current frame row for row, and the cursor must be on a fresh line. Held on N executions, not a proof.",
+        "text": "Exploration: seeded random single-bar histories run against the real library on a spy terminal; at every flush the full screen (scrollback included) must equal printed lines + current frame row for row, and the cursor must be on a fresh line. Held on N executions, not a proof. Schedule lane: a steady-tick thread is parked by the delay hook in front of its K-th lock request (K 1..8), the bar is finished/abandoned, the program prints its next lines, the tick is released and the ticker joined: the finished frame must be on the screen once with the program's lines below it.",
         "design_ref": "DESIGN.md §4 C01",
         "note": SCREEN_NOTE,
         "technique": "runtime monitoring: lock-step reference model + terminal-emulator oracle at every flush",
@@ -18,7 +18,7 @@ CLAIMS = {
         "technique": "runtime monitoring: tag-based terminal-emulator oracle + per-bar state-snapshot ranges at every flush",
     },
     "C03": {
-        "text": "Exploration: the C01/C02 alphabets with println/suspend weight tripled, limiters exhausted on purpose (1-3 Hz targets, 21+ ticks at one virtual instant), every finish/drop order; at every flush every emitted log line must be on the screen exactly once, in emission order, above the live bars; each history ends with println+clear+println to reveal latent mis-accounting.",
+        "text": "Exploration: the C01/C02 alphabets with println/suspend weight tripled, limiters exhausted on purpose (1-3 Hz targets, 21+ ticks at one virtual instant), every finish/drop order; at every flush every emitted log line must be on the screen exactly once, in emission order, above the live bars; each history ends with println+clear+println to reveal latent mis-accounting. Schedule lane: inside the closure of MultiProgress::suspend / ProgressBar::suspend (member, standalone) a second thread's inc/tick/set_message/println is let loose and given 0.5-4 ms; the closure's lines must be on the screen exactly once, above the bars.",
         "design_ref": "DESIGN.md §4 C03",
         "note": SCREEN_NOTE,
         "technique": "runtime monitoring: exactly-once / in-order log oracle over the emulated screen at every flush",
@@ -48,13 +48,13 @@ CLAIMS = {
         "technique": "runtime monitoring: differential oracle on rendered fields measured in terminal columns",
     },
     "C10": {
-        "text": "Exploration: (A) totality - grammar-generated templates, their single-character mutants and brace/colon/digit-biased random strings incl. arbitrary Unicode are parsed with with_template and template() under catch_unwind in release and debug builds: Ok or Err, never a panic; (B) fidelity - templates generated from an AST of the documented grammar (escaped braces adjacent to placeholders, '{'+whitespace literals, unknown keys, widths 0..65535 and beyond, alignment, '!', styles, 1-4 lines) are rendered through a real bar and the raw lines handed to the terminal must equal the AST's own rendering, line for line. The grammar includes one {wide_msg} anywhere in the template (reference: terminal width minus the rest of its line).",
+        "text": "Exploration: (A) totality - grammar-generated templates, their single-character mutants and brace/colon/digit-biased random strings incl. arbitrary Unicode are parsed with with_template and template() under catch_unwind in release and debug builds: Ok or Err, never a panic; (B) fidelity - templates generated from an AST of the documented grammar (escaped braces adjacent to placeholders, '{'+whitespace literals, unknown keys, widths 0..65535 and beyond, alignment, '!', styles, 1-4 lines) are rendered through a real bar and the raw lines handed to the terminal must equal the AST's own rendering, line for line. The grammar includes one {wide_msg} anywhere in the template (reference: terminal width minus the rest of its line). Templates reach the bar freshly parsed or as pb.style().template(..), at tab widths 0/2/4/8.",
         "design_ref": "DESIGN.md §4 C10",
         "note": "Trusted: the AST renderer in harness/src/props/c10.rs (uses the C12 column reference for padded fields). A final empty template line may be present or absent; widths beyond u16::MAX must be rejected with Err.",
         "technique": "runtime monitoring: grammar-directed differential oracle + panic monitor",
     },
     "C13": {
-        "text": "Exploration with an exhaustive slice: {bar:N} for every N 0..=64, every length 0..=64 and every position 0..=len+1 (plus unknown length) over 3 (quick) / all 18 (thorough) progress character sets of 2..10 clusters of 1 or 2 columns is rendered through a real bar and parsed back into filled / partial / background cells: cell count = floor(N/c), filled = floor(pos*cells/len) from exact rational arithmetic (neighbour accepted only within f32 noise of an integer), monotone in pos, 0 at pos 0, full iff pos >= len, partial cell only when neither empty nor full and always a configured character; sampled huge lengths/positions/widths; {wide_bar} lines must be exactly as wide as the terminal (within one cell) on terminals 1..300.",
+        "text": "Exploration with an exhaustive slice: {bar:N} for every N 0..=64, every length 0..=64 and every position 0..=len+1 (plus unknown length) over 3 (quick) / all 18 (thorough) progress character sets of 2..10 clusters of 1 or 2 columns is rendered through a real bar and parsed back into filled / partial / background cells: cell count = floor(N/c), filled = floor(pos*cells/len) from exact rational arithmetic (neighbour accepted only within f32 noise of an integer), monotone in pos, 0 at pos 0, full iff pos >= len, partial cell only when neither empty nor full and always a configured character; sampled huge lengths/positions/widths; {wide_bar} lines must be exactly as wide as the terminal (within one cell) on terminals 1..300. The wide_bar lane includes a two-line message before or after the bar.",
         "design_ref": "DESIGN.md §4 C13",
         "note": "Trusted: the cell parser and rational reference in harness/src/props/c13.rs. The exhaustive slice is complete for the stated ranges; everything beyond it is sampled.",
         "technique": "runtime monitoring: exhaustive-slice + sampled differential oracle on rendered bar cells",
@@ -84,31 +84,31 @@ CLAIMS = {
         "technique": "runtime monitoring: algebraic/metamorphic trace laws over getter values on a virtual clock",
     },
     "C11": {
-        "text": "Exploration: a bar whose template holds every documented non-bar key (26), a custom ProgressTracker key and an unknown key on separate lines goes through 1-25 updates (positions incl. u64 extremes and pos > len, known/zero/unknown length, texts, ticks, reset, abandon; virtual time from 1 ms to days between operations) and is drawn once on a spy terminal; each raw line is compared with the getter read at the same frozen virtual instant passed through the public formatter (percent: either neighbour within f32 noise; spinner: tick string at the model's tick count, final string once finished); the custom tracker's tick/reset/write calls are logged and compared with the bar's state. Mid-draw lane: a custom key between 2-8 keys of the pos/len family lets a helper thread run inc/dec/set_position (lock-free) while the frame is being rendered; the frame must still describe one single position (with an unknown length, len = that position).",
+        "text": "Exploration: a bar whose template holds every documented non-bar key (26), a custom ProgressTracker key and an unknown key on separate lines goes through 1-25 updates (positions incl. u64 extremes and pos > len, known/zero/unknown length, texts, ticks, reset, abandon; virtual time from 1 ms to days between operations) and is drawn once on a spy terminal; each raw line is compared with the getter read at the same frozen virtual instant passed through the public formatter (percent: either neighbour within f32 noise; spinner: tick string at the model's tick count, final string once finished); the custom tracker's tick/reset/write calls are logged and compared with the bar's state. Mid-draw lane: a custom key between 2-8 keys of the pos/len family lets a helper thread run inc/dec/set_position (lock-free) while the frame is being rendered; the frame must still describe one single position (with an unknown length, len = that position). A quarter of the bars start on a hidden target and receive the terminal through set_draw_target along the history.",
         "design_ref": "DESIGN.md §4 C11",
         "note": "The formatters themselves are C15's business; here they are the yardstick. {bar}/{wide_bar} are C13's. Tick counts beyond a few dozen are not reachable through the public API.",
         "technique": "runtime monitoring: per-key differential oracle (rendered text vs getters at a frozen virtual instant)",
     },
     "C16": {
-        "text": "Exploration: builder calls (with_tab_width/with_style/with_message/with_prefix) in random order, then 1-6 of set_tab_width/set_style/set_message/set_prefix and a finishing message (explicit or through finish-on-drop behaviour), tab widths {0,1,2,8,13}, texts with up to 10 tabs, tabs in template literals and custom-key output, standalone and inside a MultiProgress; after every operation every string handed to write_str/write_line is scanned for TAB bytes, the forced frame must equal the model with every tab replaced by current-tab-width spaces, and message()/prefix() must return the expanded text. Concurrent lane: set_message/set_prefix/finish_with_message with a text whose Into<Cow<str>> conversion lets a second thread run set_tab_width inside the call; afterwards message()/prefix() and the frame must be expanded with the new width. Styles are installed fresh or as the bar's own style() with a new template.",
+        "text": "Exploration: builder calls (with_tab_width/with_style/with_message/with_prefix) in random order, then 1-6 of set_tab_width/set_style/set_message/set_prefix and a finishing message (explicit or through finish-on-drop behaviour), tab widths {0,1,2,8,13}, texts with up to 10 tabs, tabs in template literals and custom-key output, standalone and inside a MultiProgress; after every operation every string handed to write_str/write_line is scanned for TAB bytes, the forced frame must equal the model with every tab replaced by current-tab-width spaces, and message()/prefix() must return the expanded text. Concurrent lane: set_message/set_prefix/finish_with_message with a text whose Into<Cow<str>> conversion lets a second thread run set_tab_width inside the call; afterwards message()/prefix() and the frame must be expanded with the new width. Styles are installed fresh or as the bar's own style() with a new template. The custom key writes through write_str, write_char or write_fmt with a char argument.",
         "design_ref": "DESIGN.md §4 C16",
         "note": "println texts contain no tabs here: the statement is about bar lines.",
         "technique": "runtime monitoring: byte scan of the terminal call log + model comparison after every operation",
     },
     "C06": {
-        "text": "Exploration: 2-30-step histories (incl. println, suspend, 1 ms steady tick, wrap_iter, every finish variant) applied in lock-step to a hidden bar and to a visible twin on a spy terminal; hidden kinds: hidden() target, member of MultiProgress::with_draw_target(hidden()), bar removed from a spy-backed MultiProgress (the spy's call counter must not move for any call on that bar or its drop), and - in child processes whose stdout and stderr are pipes, i.e. the real console::Term code path with is_term() == false - stderr(), stdout(), stderr_with_hz(60) targets and MultiProgress::new(); getters (position, length, message, prefix, is_finished) and return values are compared after every step; any byte on the children's pipes is a violation. The twin alphabet includes texts with tabs, set_tab_width, set_style, update, finish_using_style, reset_eta and reset_elapsed.",
+        "text": "Exploration: 2-30-step histories (incl. println, suspend, 1 ms steady tick, wrap_iter, every finish variant) applied in lock-step to a hidden bar and to a visible twin on a spy terminal; hidden kinds: hidden() target, member of MultiProgress::with_draw_target(hidden()), bar removed from a spy-backed MultiProgress (the spy's call counter must not move for any call on that bar or its drop), and - in child processes whose stdout and stderr are pipes, i.e. the real console::Term code path with is_term() == false - stderr(), stdout(), stderr_with_hz(60) targets and MultiProgress::new(); getters (position, length, message, prefix, is_finished) and return values are compared after every step; any byte on the children's pipes is a violation. The twin alphabet includes texts with tabs, set_tab_width, set_style, update, finish_using_style, reset_eta and reset_elapsed. Hidden kinds also include a live member of a visible MultiProgress handed to a hidden one and live bars given a hidden target through set_draw_target (the old terminal's call counter is watched).",
         "design_ref": "DESIGN.md §4 C06",
         "note": "Trusted: the OS pipe as byte counter; the visible twin as the reference for the logical state.",
         "technique": "runtime monitoring: silence monitor (terminal call counter / pipe byte count) + lock-step twin comparison",
     },
     "C18": {
-        "text": "Fault enumeration: every base history (single-bar and MultiProgress alphabets incl. set_tab_width, suspend, println, finish, drop) is run fault-free to count its n terminal calls and then re-run for every k in 1..=n twice - only call k fails / call k and all later calls fail (exhaustive in k up to 400 calls); each faulty run is followed by a probe battery on every bar (tick, set_message, inc, println, suspend, set_tab_width, set_length, force_draw, clone+drop, finish), on the MultiProgress (println, clear, suspend) and by dropping everything; monitors: no panic anywhere (release and debug builds), io::Result-returning calls report an error that occurred inside them, getters equal the fault-free model. Half of the MultiProgress worlds run with set_move_cursor(true).",
+        "text": "Fault enumeration: every base history (single-bar and MultiProgress alphabets incl. set_tab_width, suspend, println, finish, drop) is run fault-free to count its n terminal calls and then re-run for every k in 1..=n twice - only call k fails / call k and all later calls fail (exhaustive in k up to 400 calls); each faulty run is followed by a probe battery on every bar (tick, set_message, inc, println, suspend, set_tab_width, set_length, force_draw, clone+drop, finish), on the MultiProgress (println, clear, suspend) and by dropping everything; monitors: no panic anywhere (release and debug builds), io::Result-returning calls report an error that occurred inside them, getters equal the fault-free model. Half of the MultiProgress worlds run with set_move_cursor(true). A third of the histories end with a live bar changing its terminal (set_draw_target, add to a second MultiProgress, re-add to its own).",
         "design_ref": "DESIGN.md §4 C18",
         "note": "The fault index k is enumerated completely per history; the histories themselves are sampled. Faults are io::Error values returned by the spy terminal; partial writes are not modelled.",
         "technique": "runtime monitoring with fault injection at the TermLike boundary, exhaustive in the fault index",
     },
     "C17": {
-        "text": "Exploration by twin comparison: every call on a wrapped scripted source/sink is mirrored on an identical bare twin; items, bytes, return values and error kinds must agree and position() must move by exactly what the call transferred (seek: equal the returned offset). Families: Read (read, read_vectored, read_exact, read_to_end; short reads, Interrupted, hard errors, zero-length, EOF), BufRead (fill_buf / partial consume / read_line / read interleaved), Write (write, write_vectored, write_all, flush), Seek (three modes, rewind, stream_position), Iterator/DoubleEnded/ExactSize (size_hint validity, every ProgressFinish on exhaustion), tokio AsyncRead/AsyncBufRead/AsyncWrite/AsyncSeek and futures Stream polled by hand with scripted Pending (no runtime), rayon pipelines (for_each, map+collect, zip, enumerate, rev, chunks, with_min_len, with_max_len, unindexed filter) on pools of 1-16 threads with 0-20000 items incl. a probe that the bar is not finished while items are still being processed. Short-circuiting rayon consumers (find_any/first/last, any, all, position_any, try_for_each, while_some, take_any, try_reduce; indexed and unindexed sources): the position must equal the count of an upstream counting stage.",
+        "text": "Exploration by twin comparison: every call on a wrapped scripted source/sink is mirrored on an identical bare twin; items, bytes, return values and error kinds must agree and position() must move by exactly what the call transferred (seek: equal the returned offset). Families: Read (read, read_vectored, read_exact, read_to_end; short reads, Interrupted, hard errors, zero-length, EOF), BufRead (fill_buf / partial consume / read_line / read interleaved), Write (write, write_vectored, write_all, flush), Seek (three modes, rewind, stream_position), Iterator/DoubleEnded/ExactSize (size_hint validity, every ProgressFinish on exhaustion), tokio AsyncRead/AsyncBufRead/AsyncWrite/AsyncSeek and futures Stream polled by hand with scripted Pending (no runtime), rayon pipelines (for_each, map+collect, zip, enumerate, rev, chunks, with_min_len, with_max_len, unindexed filter) on pools of 1-16 threads with 0-20000 items incl. a probe that the bar is not finished while items are still being processed. Short-circuiting rayon consumers (find_any/first/last, any, all, position_any, try_for_each, while_some, take_any, try_reduce; indexed and unindexed sources): the position must equal the count of an upstream counting stage. The Iterator family optionally runs a second pass over the reset bar.",
         "design_ref": "DESIGN.md §4 C17",
         "note": "Separate binary vh-adapt (indicatif features rayon, tokio, futures). Erroring calls of the all-or-nothing std methods (read_exact, read_to_end) are exempt from the byte law. Rayon interleavings are whatever the pool produces.",
         "technique": "runtime monitoring: twin (differential) comparison at the adaptor boundary + conservation of the count",
